@@ -138,7 +138,7 @@ theorem checkRoute_eq (g : Graph) (first : Stop) (rest : List Stop) (f l : ℕ) 
     checkRoute g (first :: rest) =
       if f ≠ 0 ∨ l ≠ 0 then .ok ⟨false, 0, []⟩
       else match g.cap, g.init with
-        | some cap, some init => checkLoop g cap f rest 0 init 0 []
+        | some cap, some init => checkLoop g cap f rest (g.lo 0) init 0 []
         | _, _ => .error .type := by
   obtain ⟨i, hh⟩ := hh
   have hne : rest ≠ [] := by rintro rfl; simp at hh
@@ -190,7 +190,7 @@ theorem checkRoute_feas (g : Graph) (stops : List Stop) (rc : RouteCheck) (h : c
     (hf : rc.feas = true) :
     AllRes g stops ∧ ∃ first rest cap init, stops = first :: rest ∧ rest ≠ [] ∧ resolve g first = .ok 0 ∧
       (rest.map (resolve g)).getLast? = some (.ok 0) ∧ g.cap = some cap ∧ g.init = some init ∧
-      checkLoop g cap 0 rest 0 init 0 [] = .ok rc := by
+      checkLoop g cap 0 rest (g.lo 0) init 0 [] = .ok rc := by
   unfold checkRoute at h
   split_ifs at h with hlen
   · cases h; cases hf
